@@ -75,6 +75,10 @@ fn plan(parser: &str, blocks: usize) -> (Vec<u8>, Vec<u8>, Vec<u8>, usize, usize
         // long runs of blank and whitespace-only lines: each is passed over on its own
         "cnfb" => (b"p cnf 10 0\n".to_vec(), b"\n \n\t\n\n".to_vec(), b"1 -2 0\n".to_vec(), 0, 8),
         "btor2b" => (b"1 sort bitvec 8\n".to_vec(), b"\n \n\n  \n".to_vec(), b"2 input 1\n".to_vec(), 0, 16),
+        // megabytes of comments and blank lines in FRONT of the header
+        "cnfh" => (vec![], b"c a comment line before the header\n\nc\n \n".to_vec(), b"p cnf 2 1\n1 -2 0\n".to_vec(), 0, 36),
+        // a solver log full of lines that are to be ignored
+        "logu" => (b"c start\n".to_vec(), b"progress 12 %\n\nrestarts 7\n".to_vec(), b"s UNSATISFIABLE\n".to_vec(), 0, 14),
         // comment lines that look like the sampling-set extension ("c ind ... 0"): still just comments
         "cnfi" => (b"p cnf 50 0\n".to_vec(), b"c ind 1 2 3 4 5 6 7 8 9 10 0\nc ind 11 12 13 0\n1 -2 0\n".to_vec(), vec![], 1, 29),
         // every line declares a new sort or uses the one before: distinct ids all the way (materialised, a few MiB)
@@ -118,7 +122,7 @@ fn plan(parser: &str, blocks: usize) -> (Vec<u8>, Vec<u8>, Vec<u8>, usize, usize
 fn drive(parser: &str, reader: DeferredReader<'static>) -> Result<u64, String> {
     let mut items = 0u64;
     match parser {
-        "cnf" | "cnfc" | "cnfe" | "cnfi" | "cnfb" => {
+        "cnf" | "cnfc" | "cnfe" | "cnfi" | "cnfb" | "cnfh" => {
             let mut p = flussab_cnf::cnf::Parser::<i32>::new(LineReader::new(reader), Default::default()).map_err(|e| e.to_string())?;
             while let Some(c) = p.next_clause().map_err(|e| e.to_string())? {
                 items += 1 + (c.len() as u64 & 0);
@@ -136,9 +140,10 @@ fn drive(parser: &str, reader: DeferredReader<'static>) -> Result<u64, String> {
                 items += 1;
             }
         }
-        "log" => {
+        "log" | "logu" => {
             let mut lr = LineReader::new(reader);
-            let l = flussab_cnf::sat_solver_log::parse_log::<i32>(&mut lr, Default::default()).map_err(|e| e.to_string())?;
+            let cfg = flussab_cnf::sat_solver_log::Config::default().ignore_unknown_lines(parser == "logu");
+            let l = flussab_cnf::sat_solver_log::parse_log::<i32>(&mut lr, cfg).map_err(|e| e.to_string())?;
             items = l.assignment.len() as u64 + 1;
         }
         "aag" | "aage" => {
@@ -254,7 +259,7 @@ pub fn run_bigreq(opts: &HashMap<String, String>) -> i32 {
 pub fn run(opts: &HashMap<String, String>) -> i32 {
     let out: String = opt(opts, "out", "stream.ndjson".to_string());
     let sizes: String = opt(opts, "bytes", "1048576".to_string());
-    let parsers: String = opt(opts, "parsers", "cnf,cnfc,cnfe,cnfi,cnfb,wcnf,gcnf,log,aag,aage,aig,btor2,btor2c,btor2e,btor2s,btor2b".to_string());
+    let parsers: String = opt(opts, "parsers", "cnf,cnfc,cnfe,cnfi,cnfb,cnfh,wcnf,gcnf,log,logu,aag,aage,aig,btor2,btor2c,btor2e,btor2s,btor2b".to_string());
     let chunks: String = opt(opts, "chunks", "16,256,16384,1048576".to_string());
     trace::open(&out);
     let mut n = 0;
